@@ -893,6 +893,14 @@ pub fn judge(inv: &mut Inv, prev_clean: Option<&BTreeSet<usize>>, prev_failed: &
         }
         Res::Error(e) => {
             if e.contains("unknown path requested") {
+                if let Some(next) = &world.next {
+                    // the manifest is out of date and was not regenerated: names are to be resolved against the new text only
+                    if !unknown_targets.is_empty() && next.steps.iter().any(|s| s.regen && !s.subgen) && spec.targets.iter().all(|t| next.mentioned().contains(t)) && sh.finishes.is_empty() {
+                        let msg = format!("{} — but the manifest is out of date, and regenerated it names every requested target; nothing was regenerated", e);
+                        push(&mut v, "C18", "target-of-regenerated-manifest-rejected", msg.clone());
+                        push(&mut v, "C17", "target-of-regenerated-manifest-rejected", msg);
+                    }
+                }
                 if unknown_targets.is_empty() {
                     push(&mut v, "C18", "known-target-rejected", format!("{} — but every requested target occurs in the manifest", e));
                 }
